@@ -31,6 +31,17 @@ ASSUMPTIONS = ["inputs have prescribed, well separated singular values {4,2,1,1/
 VALS = [4.0, 2.0, 1.0, 0.5, 0.25, 0.125]
 
 
+
+def _dedupe(cases_):
+    """the same cell can be listed by two enumerations (e.g. a tall shape that the thorough bound also reaches): keep the first."""
+    seen, out_ = set(), []
+    for c in cases_:
+        if c["key"] not in seen:
+            seen.add(c["key"])
+            out_.append(c)
+    return out_
+
+
 def cases(tier, seed):
     S = 4 if tier == "quick" else 6
     out = []
@@ -82,7 +93,7 @@ def cases(tier, seed):
         for e in (-50, 40):
             for fn, arg in (("rand_qsvd", 1), ("pass_eff_qsvd", 3)):
                 out.append({"key": f"scaled/{fn}/{m}x{n}/2^{e}", "fn": fn, "m": m, "n": n, "r": 3, "R": 2, "P": 1, "arg": arg, "scale": e, "S": 4})
-    return out
+    return _dedupe(out)
 
 
 def run_case(case, seed):
